@@ -14,7 +14,7 @@ def gen_case(seed):
     case['profile'] = PROFILE
     case['seed'] = seed
     r = Rng(derive(seed, 'steps'))
-    avars = case['procs'][0]['vars']
+    avars = [v for v in case['procs'][0]['vars'] if not v.startswith('o')]
     # keep runs short: step phases are the expensive part
     nflow = r.pick([1, 2, 2, 3, 3, 4, 5])
     nder = r.pick([0, 0, 1, 1, 2, 3])
